@@ -337,6 +337,26 @@ def r5(cx, rec):
                      'PieceDone can be sent without the piece having been verified and written successfully')
 
 
+@TABLE.rule('5b', 'K1', 'the piece writer returns Ok only through the Ok edge of its write call (a failed or skipped write is never reported as stored)', floor=1)
+def r5b(cx, rec):
+    F = cx.F
+    W, wbb = writer_fn(F)
+    oe = W.outcome_edges(wbb)
+    okreg = set()
+    for sb, t in oe.get('ok', []):
+        okreg |= W.only_via_edge((sb, t)) | {t}
+    oks = [bi for bi, si, e in mirq.agg_sites(W, r'^std::result::Result$', 'Ok') if any(s2['k'] == 'assign' and s2['lhs']['l'] == 0 for s2 in W.blocks[bi]['s'])]
+    rec.site(W, wbb, 'write call; Ok exits of the writer: %d, all on the Ok edge of the write: %s' % (len(oks), all(b in okreg for b in oks)))
+    rec.need('ok' in oe and 'err' in oe, 'write-result-unused', W, wbb, 'the result of the write call is not branched on: a failed write is reported as stored')
+    for b in oks:
+        rec.need(b in okreg, 'stored-without-write', W, b,
+                 'the piece writer can return Ok on a path that did not pass a successful write: PieceDone is sent, the piece is marked Have '
+                 'and advertised, but the verified data is not on disk')
+    for sb, t in oe.get('err', []):
+        r = W.reach_from(t)
+        rec.need(not (r & set(oks)), 'write-error-ignored', W, wbb, 'after a failed write the writer can still return Ok')
+
+
 @TABLE.rule('6', 'K2', 'a fresh Status::Have is stored only in the PieceDone handler (other Have stores are identity rewrites)', floor=5)
 def r6(cx, rec):
     F = cx.F
@@ -468,30 +488,6 @@ def r8(cx, rec):
             break
         cur = F.owner_fn(cs[0][0]).path
     C.kill_chain(F, rec, '')
-    # the remover stores Missing for the peer's piece unless it is Have (must-execute under != Have)
-    for rp in C.peer_removers(F):
-        rf = F.body(rp)
-        st = C.status_stores(rf, 'Missing')
-        for bi, si, le, v in st:
-            idxp = access_path(le[2][1]) if le[0] == 'call' and len(le[2]) > 1 else ''
-            rec.site(rf, bi, 'reset store %s = Missing' % show(le)[:80])
-            rec.need('piece_index' in (idxp or ''), 'reset-wrong-index', rf, bi,
-                     'the reset does not address the dead peer\'s assigned piece (%s)' % idxp)
-            guard_ok = False
-            for sb in rf.switches():
-                ce, ts, o = rf.cond(sb)
-                x = ce
-                if x[0] == 'call' and x[4].get('name') in ('ne', 'eq') and any(y[0] == 'agg' and y[3] == 'Have' for y in walk(x)):
-                    tt, ff = rf.bool_edges(sb)
-                    ne_edge = tt if x[4].get('name') == 'ne' else ff
-                    other = ff if x[4].get('name') == 'ne' else tt
-                    # on the !=Have edge the store is unavoidable before return
-                    r = rf.reach_from(ne_edge, cut_blocks=[bi])
-                    if not (set(rf.return_blocks()) & r) and bi not in rf.reach_from(other, cut_blocks=[sb]):
-                        guard_ok = True
-            rec.need(guard_ok, 'reset-not-guarded', rf, bi,
-                     'the reset to Missing is not exactly "when the piece is not Have"')
-        rec.need(bool(st), 'no-reset', rf, None, 'the peer remover no longer resets the piece to Missing')
 
 
 @TABLE.rule('9', 'K5b', 'expected hash, length and index of a request come from the same piece index; the assembly '
@@ -540,3 +536,47 @@ def r10(cx, rec):
                 rec.site(f, bb, c)
                 okk = owner in allowed or owner.startswith('extractor::') or owner == 'metainfo::Metainfo::create_file'
                 rec.need(okk, 'new-file-sink/' + owner, f, bb, 'unexpected file-creating call %s in %s' % (c, owner))
+
+
+@TABLE.rule('11', 'K7', 'a piece is served only when its status is Have (shared with C09): the upload path never reads an unverified piece file', floor=4)
+def r11(cx, rec):
+    from rules import C09
+    C09.r5(cx, rec)
+
+
+@TABLE.rule('12', 'K8', 'the manager\'s record of what a peer is fetching (Peer.piece_index) changes to Some(i) only together with a request for i, '
+            'or in the follow-up of PieceDone/PieceCancel; every request for i is recorded', floor=4)
+def r12(cx, rec):
+    from rules import C12
+    F = cx.F
+    pf, psbs = C.peer_cmd_dispatch(F)
+    follow = set()
+    for v in ('PieceDone', 'PieceCancel'):
+        tgt, region = C.arm_region(pf, psbs[0], v)
+        for b, t in C.local_calls(F, pf):
+            if b in region or b == tgt:
+                follow.add(t)
+    for f in C12.handlers(F):
+        exempt = bool(C.callers(F, f.path)) and all(F.owner_fn(g).path in follow for g, gb in C.callers(F, f.path))
+        for p, pf2 in C12.paths_of(f):
+            recs = C12.record_events(f, p)
+            ret = mirq.value_on_path(f, p, 0)
+            reqs = [C12.norm_idx(access_path(x[2][1])) for x in walk(ret) if x[0] == 'call' and x[1].endswith('req_data')]
+            for r, rb in recs:
+                if r == 'None':
+                    continue
+                idx = C12.norm_idx(r.split(':', 1)[1])
+                if r.startswith('opt:'):
+                    # piece_index := chosen (Option): request iff Some -- checked through the returned command below
+                    somep = any(k.startswith('discr(%s)' % r.split(':', 1)[1]) and v == 'Some' for k, v in pf2['atoms'].items())
+                    if not somep:
+                        continue
+                okr = idx in reqs
+                rec.site(f, rb, 'piece_index := %s; request for it in the returned command: %s; PieceDone/Cancel follow-up: %s' % (r, okr, exempt))
+                rec.need(okr or exempt, 'record-without-request/' + f.path, f, rb,
+                         'the manager records that the peer is fetching piece %s although no request for it is returned to the connection task: '
+                         'the task keeps assembling another piece, and its PieceDone will mark the wrong piece as Have' % idx)
+            for q in reqs:
+                okq = any(r != 'None' and C12.norm_idx(r.split(':', 1)[1]) == q for r, rb in recs)
+                rec.need(okq, 'request-without-record/' + f.path, f, p[-1],
+                         'a request for piece %s is returned without recording it in piece_index: its PieceDone will be attributed to another piece' % q)
